@@ -85,10 +85,63 @@ type tapConn struct {
 	wmu sync.Mutex
 	mu  sync.Mutex
 	log []byte
+	// cancellations aimed at a frame's own write: the frame whose body starts with the marker gets fire()
+	// called at the start of the at-th Write call made for it (1 = header, 2 = body, 3.. = further pieces)
+	arms        []*arm
+	cur         *arm
+	frameWrites int
+}
+
+type arm struct {
+	marker []byte
+	at     int
+	fire   func()
+	fired  bool
+}
+
+func (t *tapConn) arm(a *arm) {
+	t.mu.Lock()
+	t.arms = append(t.arms, a)
+	t.mu.Unlock()
+}
+func (t *tapConn) disarm(a *arm) {
+	t.mu.Lock()
+	for i, x := range t.arms {
+		if x == a {
+			t.arms = append(t.arms[:i], t.arms[i+1:]...)
+			break
+		}
+	}
+	t.mu.Unlock()
 }
 
 func (t *tapConn) Write(p []byte) (int, error) {
 	t.wmu.Lock() // one write at a time, logged in the order it reaches the pipe
+	t.mu.Lock()
+	if bytes.HasPrefix(p, []byte(jsonrpc2.HdrContentLength+": ")) {
+		t.frameWrites, t.cur = 1, nil
+	} else {
+		t.frameWrites++
+		if t.frameWrites == 2 {
+			head := p
+			if len(head) > 200 {
+				head = head[:200]
+			}
+			for _, a := range t.arms {
+				if bytes.Contains(head, a.marker) {
+					t.cur = a
+				}
+			}
+		}
+	}
+	var fire func()
+	if a := t.cur; a != nil && !a.fired && t.frameWrites == a.at {
+		a.fired, fire = true, a.fire
+	}
+	t.mu.Unlock()
+	if fire != nil {
+		fire() // the caller's context is cancelled while its own frame is being written
+	}
 	t.mu.Lock()
 	t.log = append(t.log, p...)
 	t.mu.Unlock()
@@ -230,7 +283,7 @@ func oneConnRun(seed uint64, sz connSize) (run connRun) {
 				id := idNumber(v.ID())
 				logEv(ev{'P', id, 0})
 				switch p.Mode {
-				case "now":
+				case "now", "wcancel":
 					pwg.Add(1)
 					go func() { defer pwg.Done(); respond(id, p.V) }()
 				case "hold":
@@ -334,6 +387,31 @@ func oneConnRun(seed uint64, sz connSize) (run connRun) {
 	// ----- callers and notifiers -----
 	nCalls := sz.Callers * sz.CallsPer
 	calls := make([]*callRec, nCalls)
+	// a few messages per run carry a body from the size ladder (the run's bytes stay below what the
+	// extracted reader can take in one piece)
+	bigCall := map[int]int{}
+	bigNote := map[int]int{}
+	{
+		br := r.Fork()
+		budget := 150000
+		k := 1 + br.Intn(3)
+		if br.Intn(3) != 0 { // two runs in three stay small: the extracted reader's fuel makes a run's check quadratic in its bytes
+			k = 0
+		}
+		for ; k > 0; k-- {
+			cl := sizeLadder[3+br.Intn(len(sizeLadder)-3)]
+			n := cl.lo + br.Intn(cl.hi-cl.lo+1)
+			if n > budget {
+				continue
+			}
+			budget -= n
+			if br.Intn(4) == 0 && sz.Notifiers > 0 && sz.NotifsPer > 0 {
+				bigNote[br.Intn(sz.Notifiers)*100000+br.Intn(sz.NotifsPer)] = n
+			} else {
+				bigCall[br.Intn(nCalls)] = n
+			}
+		}
+	}
 	var wg sync.WaitGroup
 	for cg := 0; cg < sz.Callers; cg++ {
 		cr := r.Fork()
@@ -356,6 +434,18 @@ func oneConnRun(seed uint64, sz connSize) (run connRun) {
 				if cr.Intn(4) == 0 {
 					rec.params.Pad = strings.Repeat("é\r\n\r\nContent-Length: 9\r\n\r\n", cr.Intn(6))
 				}
+				big := bigCall[i]
+				if big > 0 {
+					unit := rng.Pick(cr, []string{"a", "é\r\n\r\nContent-Length: 9\r\n\r\n", "日本語"})
+					ub, _ := json.Marshal(unit)
+					rec.params.Pad = strings.Repeat(unit, big/(len(ub)-2))
+				}
+				// "wcancel": the context is cancelled from inside the connection's Write while this call's own
+				// frame is going out (at the start of the 2nd or 3rd Write call made for it); the peer answers at once
+				if (big > 0 && cr.Intn(2) == 0) || cr.Intn(12) == 0 {
+					rec.params.Mode = "wcancel"
+				}
+				var armed *arm
 				cctx, cancel := context.WithCancel(ctx)
 				watchdog := time.AfterFunc(4*time.Second, func() { rec.timeout.Store(true); broken.Store(true); cancel() })
 				var cwg sync.WaitGroup
@@ -380,6 +470,11 @@ func oneConnRun(seed uint64, sz connSize) (run connRun) {
 				case "precancel":
 					logEv(ev{'X', i, 0})
 					cancel()
+				case "wcancel":
+					a := &arm{marker: []byte(fmt.Sprintf(`"params":{"c":%d,"s":%d,`, cg, s)), at: 2 + cr.Intn(2),
+						fire: func() { logEv(ev{'X', i, 0}); cancel() }}
+					tap.arm(a)
+					armed = a
 				}
 				var res callResult
 				t0 := time.Now()
@@ -388,6 +483,9 @@ func oneConnRun(seed uint64, sz connSize) (run connRun) {
 					rtt = (3*rtt + time.Since(t0)) / 4
 				}
 				watchdog.Stop()
+				if armed != nil {
+					tap.disarm(armed)
+				}
 				rec.id = idNumber(id)
 				switch {
 				case err == nil:
@@ -415,6 +513,9 @@ func oneConnRun(seed uint64, sz connSize) (run connRun) {
 				p := noteParams{N: ng, S: s}
 				if nr.Intn(3) == 0 {
 					p.Pad = strings.Repeat("日本\r\n\r\n", nr.Intn(8))
+				}
+				if big := bigNote[ng*100000+s]; big > 0 {
+					p.Pad = strings.Repeat("日本\r\n\r\n", big/14)
 				}
 				if err := conn.Notify(ctx, "note", p); err != nil {
 					fail("conn: notification written", err.Error(), nil)
@@ -568,6 +669,9 @@ func oneConnRun(seed uint64, sz connSize) (run connRun) {
 			continue
 		}
 		run.Outcomes[rec.params.Mode+"->"+rec.outcome]++
+		if len(rec.params.Pad) > 8000 {
+			run.Outcomes["call with a body of "+sizeBucketLadder(len(rec.params.Pad))]++
+		}
 		if prev, dup := ids[rec.id]; dup {
 			fail("conn: calls have pairwise different ids", fmt.Sprintf("calls %d and %d both got id %d", prev, rec.idx, rec.id), nil)
 		}
